@@ -98,6 +98,9 @@ class Hist:
         v1 = self.name("v"); F.append([S("define"), S(v1), [S("vector"), 1, 2, 3]]); self.vecs.append(v1)
         g = self.name("g"); F.append([S("define"), S(g), 0]); self.globs.append(g)
         F.append(parse("(define (set-%s! x) (set! %s x))" % (g, g)))
+        # a procedure whose parameter is named like the global and that ends in a tail call of the setter: the setter still assigns the global
+        F.append(parse("(define (via-%s! %s) (set-%s! (+ %s 1000)))" % (g, g, g, g)))
+        F.append(parse("(define (via2-%s! x) (define %s 7) (set-%s! (+ x %s)))" % (g, g, g, g)))
         F.append(parse("(define (poke! vec i x) (vector-set! vec i x))"))
         F.append(parse("(define (poke-%s! i x) (vector-set! %s i x))" % (v1, v1)))
         lv = self.name("lit"); F.append([S("define"), S(lv), r.choice([q(Vec([1, 2])), Vec([1, 2])])]); self.lits.append(lv)
@@ -198,7 +201,8 @@ class Hist:
                     F.append([S("poke-%s!" % self.vecs[0]), idx, val if isinstance(val, int) else self.uniq()])
             elif c < 0.70:
                 g = r.choice(self.globs)
-                F.append(r.choice([[S("set!"), S(g), self.uniq()], [S("set-%s!" % g), self.uniq()], [S("define"), S(g), self.uniq()]]))
+                F.append(r.choice([[S("set!"), S(g), self.uniq()], [S("set-%s!" % g), self.uniq()], [S("define"), S(g), self.uniq()], [S("via-%s!" % g), self.uniq()],
+                                   [S("via2-%s!" % g), self.uniq()], [S("begin"), [S("via-%s!" % g), self.uniq()], S(g)]]))
             elif c < 0.76:
                 tgt = S(r.choice(self.lits)) if r.random() < 0.5 else r.choice(self.nested)
                 F.append([S("vector-set!"), tgt, 0, self.uniq()])        # literal vectors reject mutation, also nested ones
